@@ -1012,7 +1012,7 @@ fn main() {
                 w.stats.hit("sampled_len3_sequences");
             }
         }
-        let nrandom = args.get_u64("random", if args.thorough() { 4000 } else { 250 });
+        let nrandom = args.get_u64("random", if args.thorough() { 2500 } else { 250 });
         for _ in 0..nrandom {
             let (universe, ops) = random_ops(&mut rng, args.thorough(), &mut w.stats);
             for b in BACKENDS {
@@ -1071,6 +1071,28 @@ fn main() {
             w.stats.add(k, *v);
         }
         w.stats.hit(&format!("cases_{}", case.backend));
+        for op in &case.ops {
+            let (pays, ids): (Vec<&String>, Vec<u64>) = match op {
+                Op::Put(_, id, _, p) => (vec![p], vec![*id]),
+                Op::MultiPut(_, docs) => (docs.iter().map(|d| &d.2).collect(), docs.iter().map(|d| d.0).collect()),
+                Op::Tomb(_, id, _) => (vec![], vec![*id]),
+                Op::MultiTomb(_, docs) => (vec![], docs.iter().map(|d| d.0).collect()),
+                Op::Purge(_, ids) => (vec![], ids.clone()),
+                Op::Reopen => (vec![], vec![]),
+            };
+            for p in pays {
+                w.stats.hit(match p.as_bytes()[0] {
+                    b'e' => "payload_empty",
+                    b'b' => "payload_1_byte",
+                    b's' => "payload_2_to_15_bytes",
+                    b'k' => "payload_4KiB",
+                    _ => "payload_1MiB",
+                });
+            }
+            for id in ids {
+                w.stats.hit(if id >= 1 << 63 { "id_at_or_above_2^63" } else { "id_below_2^63" });
+            }
+        }
         w.stats.add("steps", case.ops.len() as u64);
         close_total.sqlite_close_seen += rs.close.sqlite_close_seen;
         close_total.sqlite_close_timeout += rs.close.sqlite_close_timeout;
